@@ -214,7 +214,9 @@ def check_excl(run: Run, prog: Program) -> None:
                           instance=f"{fn.qual}: `{cfg.nodes[x].text(40)}` behind `{t.label[:30]}`")
         # timestamp sentinel
         ts_upd = [cfg.nodes[x].ast for x in updates if isinstance(cfg.nodes[x].ast, ast.Assign)]
-        ok = len(ts_upd) == 1 and u(ts_upd[0].value).replace(" ", "") == "max(timestamp,metrics.timestamp)"
+        ok = len(ts_upd) == 1 and isinstance(ts_upd[0].value, ast.Call) and u(ts_upd[0].value.func) == "max" \
+            and len(ts_upd[0].value.args) == 2 and "timestamp" in {u(a) for a in ts_upd[0].value.args} \
+            and any(u(a).endswith(".timestamp") for a in ts_upd[0].value.args)
         run.check(ok, "C18.EXCL", fn.qual, "timestamp = max(timestamp, metrics.timestamp) with the accumulators",
                   "the 'some battery qualified' sentinel is not updated together with the accumulators",
                   node=loop, file=fn.file)
